@@ -78,6 +78,20 @@ def report_races(ctx, reports, what):
         ctx.violations.append((sig, path, what))
 
 
+def report_crashes(ctx, reports, what):
+    """The driver died because a goroutine of the code under test panicked: a violation with the crash output as replay."""
+    os.makedirs(os.path.join(core.VERIF, "replays"), exist_ok=True)
+    for rep in reports[:3]:
+        head = rep.splitlines()[0][:200]
+        frames = [ln.strip() for ln in rep.splitlines() if ln.strip().startswith(core.REPO + "/")]
+        sig = "crash: %s at %s" % (head, frames[0].split(" ")[0] if frames else "?")
+        path = os.path.join(core.VERIF, "replays", "%s-%s-seed%d-crash%d.json" % (ctx.pid, ctx.tier, ctx.seed, len(ctx.violations)))
+        with open(path, "w") as f:
+            json.dump({"property": ctx.pid, "tier": ctx.tier, "seed": ctx.seed, "what": what, "signature": sig, "crash": rep,
+                       "replay": "VERIF_SEED=%d bin/vcheck %s %s" % (ctx.seed, ctx.pid, ctx.tier)}, f, indent=1)
+        ctx.violations.append((sig, path, what))
+
+
 def main(argv):
     if len(argv) < 2:
         print(__doc__ or "usage: vcheck <property> quick|thorough [--replay path]", file=sys.stderr)
